@@ -76,10 +76,12 @@ class Contents:
         return -1
 
     def describe(self, b: bytes) -> list:
-        """b as a sequence of segments [c, lo, n]; what cannot be matched is one Garbage segment."""
+        """b as a sequence of segments [c, lo, n]; stretches that cannot be matched (dead space, foreign
+        bytes) are Garbage segments, and matching resumes behind them."""
         out = []
         pos = 0
         n = len(b)
+        junk = 0
         while pos < n:
             hit = self.tag.get(b[pos])
             seg = None
@@ -89,10 +91,16 @@ class Contents:
                 if b[pos:pos + len(tail)] == tail:
                     seg = {'c': c, 'lo': lo, 'n': len(tail)}
             if seg is None:
-                out.append({'c': -1, 'lo': 0, 'n': n - pos})
-                break
+                junk += 1
+                pos += 1
+                continue
+            if junk:
+                out.append({'c': -1, 'lo': 0, 'n': junk})
+                junk = 0
             out.append(seg)
             pos += seg['n']
+        if junk:
+            out.append({'c': -1, 'lo': 0, 'n': junk})
         return out
 
 
